@@ -1,7 +1,9 @@
 import Tx3Proofs.C10
+import Tx3Proofs.C10Outputs
 #print axioms Tx3.C10_network_id
 #print axioms Tx3.C10_hash_presence
 #print axioms Tx3.C10_no_zero_mint
 #print axioms Tx3.rewardAccount_wf
 #print axioms Tx3.C10_reward_accounts
 #print axioms Tx3.C10_wf
+#print axioms Tx3.C10_output_quantities_positive
